@@ -30,6 +30,26 @@ pub axiom fn axiom_strict_is_lossy_u64(b: Seq<u8>) ensures strict_num::<u64>(b) 
 pub axiom fn axiom_str_u64_same(s: Seq<char>) ensures spec_str_num::<u64>(s) == spec_str_u64(s);
 pub axiom fn axiom_strict_is_lossy_isize(b: Seq<u8>) ensures strict_num::<isize>(b) == parse_lossy_spec::<isize>(b);
 
+/// `s.to_uppercase()` on the strictly decoded option word (RCALL site)
+pub uninterp spec fn upper_chars(s: Seq<char>) -> Seq<char>;
+#[verifier::external_body]
+pub fn verif_to_upper(s: String) -> (r: String) ensures r@ == upper_chars(s@), { unimplemented!() }
+/// TRUSTED: upper-casing the strict decoding (script path) and upper-casing the lossy decoding (direct path, spec_upper) agree on
+/// valid UTF-8; on invalid UTF-8 the lossy text contains U+FFFD and is therefore none of the ASCII option words
+pub open spec fn is_set_word(u: Seq<char>) -> bool { u == "EX"@ || u == "PX"@ || u == "NX"@ || u == "XX"@ }
+pub axiom fn axiom_upper_strict_is_lossy(b: Seq<u8>)
+    ensures match spec_utf8(b) { Some(s) => upper_chars(s) == spec_upper(b), None => !is_set_word(spec_upper(b)) };
+/// `SetOptions::default()` (#[derive(Default)], RPCALL site)
+#[verifier::external_body]
+pub fn verif_set_options_default() -> (r: SetOptions)
+    ensures !r.nx, !r.xx, !r.get, !r.keepttl, r.expiration is None,
+{ unimplemented!() }
+pub open spec fn opts_of(o: SetOptions) -> SetOpts { SetOpts { exp: (match o.expiration { Some(d) => Some(dur_nanos(d)), None => None }), nx: o.nx, xx: o.xx } }
+/// some option word (position >= 3) is one that only the script path's grammar knows
+pub open spec fn script_only_option(parts: Seq<RespFrame>) -> bool {
+    exists|j: int| 3 <= j < parts.len() && #[trigger] arg(parts, j) is Some && (spec_upper(arg(parts, j)->Some_0) == "GET"@ || spec_upper(arg(parts, j)->Some_0) == "KEEPTTL"@)
+}
+
 /// the parser of the script path (associated functions only)
 pub struct CommandParser;
 
@@ -90,6 +110,208 @@ impl CommandParser {
             (frames@.len() != 3 || arg(frames@, 1) is None || num_arg::<i64>(frames@, 2) is None) ==> r is Err,
             frames@.len() == 3 && arg(frames@, 1) is Some && num_arg::<i64>(frames@, 2) is Some ==>
                 (r matches Ok(StringCommand::IncrBy { key, increment }) && key@ == arg(frames@, 1)->Some_0 && increment == num_arg::<i64>(frames@, 2)->Some_0),
+//@@ body
+//@@ end
+
+//@@ unit parse_decrby fn src/storage/commands/executor.rs CommandParser::parse_decrby
+//@@   rewrite R1
+//@@   rewrite RCALL parse "Self::extract_string(&frames[2])?" verif_parse_str
+//@@   at "let decrement"
+//@@|     proof { axiom_strict_is_lossy_i64(arg(frames@, 2)->Some_0); }
+    fn parse_decrby(frames: &[RespFrame]) -> (r: Result<StringCommand>)
+        ensures
+            (frames@.len() != 3 || arg(frames@, 1) is None || num_arg::<i64>(frames@, 2) is None) ==> r is Err,
+            frames@.len() == 3 && arg(frames@, 1) is Some && num_arg::<i64>(frames@, 2) is Some ==>
+                (r matches Ok(StringCommand::DecrBy { key, decrement }) && key@ == arg(frames@, 1)->Some_0 && decrement == num_arg::<i64>(frames@, 2)->Some_0),
+//@@ body
+//@@ end
+
+//@@ unit parse_setnx fn src/storage/commands/executor.rs CommandParser::parse_setnx
+    fn parse_setnx(frames: &[RespFrame]) -> (r: Result<StringCommand>)
+        ensures
+            (frames@.len() != 3 || arg(frames@, 1) is None || arg(frames@, 2) is None) ==> r is Err,
+            frames@.len() == 3 && arg(frames@, 1) is Some && arg(frames@, 2) is Some ==>
+                (r matches Ok(StringCommand::SetNx { key, value }) && key@ == arg(frames@, 1)->Some_0 && value@ == arg(frames@, 2)->Some_0),
+//@@ body
+//@@ end
+
+//@@ unit parse_append fn src/storage/commands/executor.rs CommandParser::parse_append
+    fn parse_append(frames: &[RespFrame]) -> (r: Result<StringCommand>)
+        ensures
+            (frames@.len() != 3 || arg(frames@, 1) is None || arg(frames@, 2) is None) ==> r is Err,
+            frames@.len() == 3 && arg(frames@, 1) is Some && arg(frames@, 2) is Some ==>
+                (r matches Ok(StringCommand::Append { key, value }) && key@ == arg(frames@, 1)->Some_0 && value@ == arg(frames@, 2)->Some_0),
+//@@ body
+//@@ end
+
+//@@ unit parse_setex fn src/storage/commands/executor.rs CommandParser::parse_setex
+//@@   rewrite R1
+//@@   rewrite RCALL parse "Self::extract_string(&frames[2])?" verif_parse_str
+//@@   at "let seconds"
+//@@|     proof { axiom_strict_is_lossy_u64(arg(frames@, 2)->Some_0); }
+    fn parse_setex(frames: &[RespFrame]) -> (r: Result<StringCommand>)
+        ensures
+            // C12: refused for exactly the shapes the direct command refuses — a zero expire time included
+            (frames@.len() != 4 || arg(frames@, 1) is None || num_arg::<u64>(frames@, 2) is None || num_arg::<u64>(frames@, 2) == Some(0u64) || arg(frames@, 3) is None) ==> r is Err,
+            frames@.len() == 4 && arg(frames@, 1) is Some && num_arg::<u64>(frames@, 2) is Some && num_arg::<u64>(frames@, 2) != Some(0u64) && arg(frames@, 3) is Some ==>
+                (r matches Ok(StringCommand::SetEx { key, value, seconds }) && key@ == arg(frames@, 1)->Some_0 && value@ == arg(frames@, 3)->Some_0 && seconds == num_arg::<u64>(frames@, 2)->Some_0),
+//@@ body
+//@@ end
+
+//@@ unit parse_psetex fn src/storage/commands/executor.rs CommandParser::parse_psetex
+//@@   rewrite R1
+//@@   rewrite RCALL parse "Self::extract_string(&frames[2])?" verif_parse_str
+//@@   at "let milliseconds"
+//@@|     proof { axiom_strict_is_lossy_u64(arg(frames@, 2)->Some_0); }
+    fn parse_psetex(frames: &[RespFrame]) -> (r: Result<StringCommand>)
+        ensures
+            // C12: refused for exactly the shapes the direct command refuses — a zero expire time included
+            (frames@.len() != 4 || arg(frames@, 1) is None || num_arg::<u64>(frames@, 2) is None || num_arg::<u64>(frames@, 2) == Some(0u64) || arg(frames@, 3) is None) ==> r is Err,
+            frames@.len() == 4 && arg(frames@, 1) is Some && num_arg::<u64>(frames@, 2) is Some && num_arg::<u64>(frames@, 2) != Some(0u64) && arg(frames@, 3) is Some ==>
+                (r matches Ok(StringCommand::PSetEx { key, value, milliseconds }) && key@ == arg(frames@, 1)->Some_0 && value@ == arg(frames@, 3)->Some_0 && milliseconds == num_arg::<u64>(frames@, 2)->Some_0),
+//@@ body
+//@@ end
+
+//@@ unit parse_lpush fn src/storage/commands/executor.rs CommandParser::parse_lpush
+//@@   rewrite RT "let mut values = Vec::new();" "let mut values: Vec<Vec<u8>> = Vec::new();"
+//@@   loop 0
+//@@|     invariant 2 <= i <= frames@.len(), values@.len() == i - 2, forall|j: int| 2 <= j < i ==> (#[trigger] frames@[j] matches RespFrame::BulkString(Some(_))),
+//@@|         forall|j: int| 0 <= j < i - 2 ==> values@[j] == arg_vec(frames@, j + 2)->Some_0,
+//@@   afterloop 0
+//@@|     proof { assert(values@ =~= args_from(frames@, 2)); }
+    fn parse_lpush(frames: &[RespFrame]) -> (r: Result<ListCommand>)
+        ensures
+            (frames@.len() < 3 || arg(frames@, 1) is None || !all_bulk(frames@, 2)) ==> r is Err,
+            frames@.len() >= 3 && arg(frames@, 1) is Some && all_bulk(frames@, 2) ==>
+                (r matches Ok(ListCommand::LPush { key, values }) && key@ == arg(frames@, 1)->Some_0 && values@ == args_from(frames@, 2)),
+//@@ body
+//@@ end
+
+//@@ unit parse_rpush fn src/storage/commands/executor.rs CommandParser::parse_rpush
+//@@   rewrite RT "let mut values = Vec::new();" "let mut values: Vec<Vec<u8>> = Vec::new();"
+//@@   loop 0
+//@@|     invariant 2 <= i <= frames@.len(), values@.len() == i - 2, forall|j: int| 2 <= j < i ==> (#[trigger] frames@[j] matches RespFrame::BulkString(Some(_))),
+//@@|         forall|j: int| 0 <= j < i - 2 ==> values@[j] == arg_vec(frames@, j + 2)->Some_0,
+//@@   afterloop 0
+//@@|     proof { assert(values@ =~= args_from(frames@, 2)); }
+    fn parse_rpush(frames: &[RespFrame]) -> (r: Result<ListCommand>)
+        ensures
+            (frames@.len() < 3 || arg(frames@, 1) is None || !all_bulk(frames@, 2)) ==> r is Err,
+            frames@.len() >= 3 && arg(frames@, 1) is Some && all_bulk(frames@, 2) ==>
+                (r matches Ok(ListCommand::RPush { key, values }) && key@ == arg(frames@, 1)->Some_0 && values@ == args_from(frames@, 2)),
+//@@ body
+//@@ end
+
+//@@ unit parse_lpop fn src/storage/commands/executor.rs CommandParser::parse_lpop
+    fn parse_lpop(frames: &[RespFrame]) -> (r: Result<ListCommand>)
+        ensures
+            (frames@.len() != 2 || arg(frames@, 1) is None) ==> r is Err,
+            frames@.len() == 2 && arg(frames@, 1) is Some ==> (r matches Ok(ListCommand::LPop { key }) && key@ == arg(frames@, 1)->Some_0),
+//@@ body
+//@@ end
+
+//@@ unit parse_rpop fn src/storage/commands/executor.rs CommandParser::parse_rpop
+    fn parse_rpop(frames: &[RespFrame]) -> (r: Result<ListCommand>)
+        ensures
+            (frames@.len() != 2 || arg(frames@, 1) is None) ==> r is Err,
+            frames@.len() == 2 && arg(frames@, 1) is Some ==> (r matches Ok(ListCommand::RPop { key }) && key@ == arg(frames@, 1)->Some_0),
+//@@ body
+//@@ end
+
+//@@ unit parse_llen fn src/storage/commands/executor.rs CommandParser::parse_llen
+    fn parse_llen(frames: &[RespFrame]) -> (r: Result<ListCommand>)
+        ensures
+            (frames@.len() != 2 || arg(frames@, 1) is None) ==> r is Err,
+            frames@.len() == 2 && arg(frames@, 1) is Some ==> (r matches Ok(ListCommand::LLen { key }) && key@ == arg(frames@, 1)->Some_0),
+//@@ body
+//@@ end
+
+//@@ unit parse_lindex fn src/storage/commands/executor.rs CommandParser::parse_lindex
+//@@   rewrite R1
+//@@   rewrite RCALL parse "Self::extract_string(&frames[2])?" verif_parse_str
+//@@   at "let index"
+//@@|     proof { axiom_strict_is_lossy_isize(arg(frames@, 2)->Some_0); }
+    fn parse_lindex(frames: &[RespFrame]) -> (r: Result<ListCommand>)
+        ensures
+            (frames@.len() != 3 || arg(frames@, 1) is None || num_arg::<isize>(frames@, 2) is None) ==> r is Err,
+            frames@.len() == 3 && arg(frames@, 1) is Some && num_arg::<isize>(frames@, 2) is Some ==> (r matches Ok(ListCommand::LIndex { key, index }) && key@ == arg(frames@, 1)->Some_0 && index == num_arg::<isize>(frames@, 2)->Some_0),
+//@@ body
+//@@ end
+
+//@@ unit parse_lset fn src/storage/commands/executor.rs CommandParser::parse_lset
+//@@   rewrite R1
+//@@   rewrite RCALL parse "Self::extract_string(&frames[2])?" verif_parse_str
+//@@   at "let index"
+//@@|     proof { axiom_strict_is_lossy_isize(arg(frames@, 2)->Some_0); }
+    fn parse_lset(frames: &[RespFrame]) -> (r: Result<ListCommand>)
+        ensures
+            (frames@.len() != 4 || arg(frames@, 1) is None || num_arg::<isize>(frames@, 2) is None || arg(frames@, 3) is None) ==> r is Err,
+            frames@.len() == 4 && arg(frames@, 1) is Some && num_arg::<isize>(frames@, 2) is Some && arg(frames@, 3) is Some ==> (r matches Ok(ListCommand::LSet { key, index, value }) && key@ == arg(frames@, 1)->Some_0 && index == num_arg::<isize>(frames@, 2)->Some_0 && value@ == arg(frames@, 3)->Some_0),
+//@@ body
+//@@ end
+
+//@@ unit parse_lrange fn src/storage/commands/executor.rs CommandParser::parse_lrange
+//@@   rewrite R1
+//@@   rewrite RCALL parse "Self::extract_string(&frames[2])?" verif_parse_str
+//@@   rewrite RCALL parse "Self::extract_string(&frames[3])?" verif_parse_str
+//@@   at "let start"
+//@@|     proof { axiom_strict_is_lossy_isize(arg(frames@, 2)->Some_0); axiom_strict_is_lossy_isize(arg(frames@, 3)->Some_0); }
+    fn parse_lrange(frames: &[RespFrame]) -> (r: Result<ListCommand>)
+        ensures
+            (frames@.len() != 4 || arg(frames@, 1) is None || num_arg::<isize>(frames@, 2) is None || num_arg::<isize>(frames@, 3) is None) ==> r is Err,
+            frames@.len() == 4 && arg(frames@, 1) is Some && num_arg::<isize>(frames@, 2) is Some && num_arg::<isize>(frames@, 3) is Some ==> (r matches Ok(ListCommand::LRange { key, start, stop }) && key@ == arg(frames@, 1)->Some_0 && start == num_arg::<isize>(frames@, 2)->Some_0 && stop == num_arg::<isize>(frames@, 3)->Some_0),
+//@@ body
+//@@ end
+
+//@@ unit parse_ltrim fn src/storage/commands/executor.rs CommandParser::parse_ltrim
+//@@   rewrite R1
+//@@   rewrite RCALL parse "Self::extract_string(&frames[2])?" verif_parse_str
+//@@   rewrite RCALL parse "Self::extract_string(&frames[3])?" verif_parse_str
+//@@   at "let start"
+//@@|     proof { axiom_strict_is_lossy_isize(arg(frames@, 2)->Some_0); axiom_strict_is_lossy_isize(arg(frames@, 3)->Some_0); }
+    fn parse_ltrim(frames: &[RespFrame]) -> (r: Result<ListCommand>)
+        ensures
+            (frames@.len() != 4 || arg(frames@, 1) is None || num_arg::<isize>(frames@, 2) is None || num_arg::<isize>(frames@, 3) is None) ==> r is Err,
+            frames@.len() == 4 && arg(frames@, 1) is Some && num_arg::<isize>(frames@, 2) is Some && num_arg::<isize>(frames@, 3) is Some ==> (r matches Ok(ListCommand::LTrim { key, start, stop }) && key@ == arg(frames@, 1)->Some_0 && start == num_arg::<isize>(frames@, 2)->Some_0 && stop == num_arg::<isize>(frames@, 3)->Some_0),
+//@@ body
+//@@ end
+
+//@@ unit parse_set fn src/storage/commands/executor.rs CommandParser::parse_set
+//@@   rewrite R1
+//@@   rewrite R3
+//@@   rewrite RPCALL "SetOptions::default" verif_set_options_default
+//@@   rewrite RCALL to_uppercase "Self::extract_string(&frames[i])?" verif_to_upper
+//@@   rewrite RCALL parse "Self::extract_string(&frames[i + 1])?" verif_parse_str
+//@@   loop 0
+//@@|     invariant
+//@@|         3 <= i <= frames@.len() + 1, frames@.len() >= 3,
+//@@|         seen_x@ ==> script_only_option(frames@) && set_opts(frames@, 3, SetOpts { exp: None, nx: false, xx: false }) is None,
+//@@|         !seen_x@ ==> !options.get && !options.keepttl && set_opts(frames@, 3, SetOpts { exp: None, nx: false, xx: false }) == set_opts(frames@, i as int, opts_of(options)),
+//@@|     decreases frames@.len() + 1 - i,
+//@@   at "let mut i = 3;"
+//@@|     let ghost mut seen_x: Ghost<bool> = Ghost(false);
+//@@   loopstart 0
+//@@|     proof { broadcast use group_str_eq; reveal_with_fuel(set_opts, 2); if arg(frames@, i as int) is Some { axiom_upper_strict_is_lossy(arg(frames@, i as int)->Some_0); }
+//@@|         if arg(frames@, i + 1) is Some { let b = arg(frames@, i + 1)->Some_0; if spec_utf8(b) is Some { axiom_str_u64_same(spec_utf8(b)->Some_0); } } }
+//@@   after "options.get = true;"
+//@@|     proof { if !seen_x@ { assert(arg(frames@, i as int) is Some); } seen_x@ = true; }
+//@@   after "options.keepttl = true;"
+//@@|     proof { if !seen_x@ { assert(arg(frames@, i as int) is Some); } seen_x@ = true; }
+    fn parse_set(frames: &[RespFrame]) -> (r: Result<StringCommand>)
+        ensures
+            (frames@.len() < 3 || arg(frames@, 1) is None || arg(frames@, 2) is None) ==> r is Err,
+            // C12: whenever the direct SET accepts the option list, the script path parses it to the same key, value and options ...
+            frames@.len() >= 3 && arg(frames@, 1) is Some && arg(frames@, 2) is Some ==> (match set_opts(frames@, 3, SetOpts { exp: None, nx: false, xx: false }) {
+                Some(o) => r matches Ok(StringCommand::Set { key, value, options }) && key@ == arg(frames@, 1)->Some_0 && value@ == arg(frames@, 2)->Some_0
+                    && opts_of(options) == o && !options.get && !options.keepttl,
+                None => true,
+            }),
+            // ... and whenever the direct SET refuses it (syntax error, invalid or zero expire time), so does the script path
+            frames@.len() >= 3 && arg(frames@, 1) is Some && arg(frames@, 2) is Some && set_opts(frames@, 3, SetOpts { exp: None, nx: false, xx: false }) is None
+                && !script_only_option(frames@) ==> r is Err,
+            // (same, for option lists that contain GET or KEEPTTL)
+            frames@.len() >= 3 && arg(frames@, 1) is Some && arg(frames@, 2) is Some && set_opts(frames@, 3, SetOpts { exp: None, nx: false, xx: false }) is None
+                && script_only_option(frames@) ==> r is Err,
 //@@ body
 //@@ end
 }
